@@ -64,6 +64,9 @@ def main():
                                 "level_note": NOTE + ((" The check also runs unit(s) %s of this repository and counts the obligations that discharge "
                                                        "the contracts this property's units assume about them (DESIGN.md 0.6, last item)."
                                                        % ", ".join(sorted(cfg["assumes"]))) if cfg.get("assumes") else "")
+                                              + ((" Bounded stand-ins that run with this check (executed scenarios of the real crates, listed under "
+                                                  "bounded_checks, never counted as proved): %s." % ", ".join(e["name"] for e in cfg["enumerations"]))
+                                                 if cfg.get("enumerations") else "")
                                               + " Not covered: " + " | ".join(cfg["not_covered"]),
                                 "technique": tech})
         else:
